@@ -220,6 +220,16 @@ ChPushObs(c, m, o) ==
   THEN [c EXCEPT !.moves = Append(@, m), !.hist = Append(@, [ApplyMove(Cur(c), m) EXCEPT !.hm = o.last.pos.hm])]
   ELSE ChPush(c, m)
 
+\* text comparisons that tolerate a different use of blanks (no listed property pins the spacing of the move lists)
+IsBlankCh(c) == c \in {32, 9, 10, 13}
+NoBlanks(t) == SelectSeq(t, LAMBDA c : ~IsBlankCh(c))
+RECURSIVE TokensFrom(_, _, _)
+TokensFrom(t, i, cur) ==
+  IF i > Len(t) THEN (IF cur = <<>> THEN <<>> ELSE <<cur>>)
+  ELSE IF IsBlankCh(t[i]) THEN (IF cur = <<>> THEN <<>> ELSE <<cur>>) \o TokensFrom(t, i + 1, <<>>)
+  ELSE TokensFrom(t, i + 1, Append(cur, t[i]))
+Tokens(t) == TokensFrom(t, 1, <<>>)
+
 \* the logged observation agrees with the abstract chain
 ObsChecks(c, o) ==
   {<<"obs_len", o.len = ChLen(c) /\ o.empty = (ChLen(c) = 0)>>,
@@ -254,14 +264,19 @@ WalkChecks(c, steps, k, i) ==
                               /\ SetsMatch(st.state.der, Scratch(r.pos))
        IN {<<"walk_step_" \o ToString(k) \o "_" \o st.op, ok>>} \cup WalkChecks(c, steps, k + 1, r.i)
 
+StyledExpected(c, v) ==
+  StyledText(c, v.nums, IF v.nums = "custom" THEN v.custom ELSE 0, v.status,
+             LAMBDA i : CASE v.style = "uci" -> UciOf(c.moves[i])
+                          [] v.style = "san" -> SanOf(c.hist[i], c.moves[i])
+                          [] OTHER -> SanUtf8Of(c.hist[i], c.moves[i]))
+\* moves in the requested notation, in game order, numbers, status token: compared blank-insensitively; the exact
+\* spacing is a note
 StyledChecks(c, variants) ==
   {<<"styled_" \o v.nums \o "_" \o v.style \o (IF v.status THEN "_status" ELSE ""),
-     ~("panic" \in DOMAIN v)
-     /\ v.text = StyledText(c, v.nums, IF v.nums = "custom" THEN v.custom ELSE 0, v.status,
-                             LAMBDA i : CASE v.style = "uci" -> UciOf(c.moves[i])
-                                          [] v.style = "san" -> SanOf(c.hist[i], c.moves[i])
-                                          [] OTHER -> SanUtf8Of(c.hist[i], c.moves[i]))>> :
+     ~("panic" \in DOMAIN v) /\ NoBlanks(v.text) = NoBlanks(StyledExpected(c, v))>> :
      v \in {variants[i] : i \in 1..Len(variants)}}
+  \cup {<<"x_styled_text_spacing", \A i \in 1..Len(variants) :
+            ("panic" \in DOMAIN variants[i]) \/ variants[i].text = StyledExpected(c, variants[i])>>}
 
 \* engine S2I: the behaviour came from the model; the harness compared the abstract state the model expects
 S2IChecks(e) == IF "s2i_match" \in DOMAIN e THEN {<<"model_behaviour_reproduced_by_code", e.s2i_match>>} ELSE {}
@@ -312,7 +327,8 @@ ChainChecks(e) ==
          WalkChecks(ch, e.results, 1, 0)
          \cup {<<"walk_leaves_chain_untouched", e.chain_untouched /\ e.obs = pobs>>}
     [] e.ev = "c_text" ->
-         {<<"uci_list_text", e.uci = UciListText(ch)>>,
+         {<<"uci_list_text", Tokens(e.uci) = [i \in 1..ChLen(ch) |-> UciOf(ch.moves[i])]>>,
+          <<"x_uci_list_text_single_blanks", e.uci = UciListText(ch)>>,
           \* (a chain holding a null move prints it as 0000, which is deliberately not playable back)
           <<"uci_list_rebuilds_equal_chain",
               (\E i \in 1..ChLen(ch) : ch.moves[i] = NullMove)
@@ -495,7 +511,8 @@ CapChecks(e) ==
   IF "panic" \in DOMAIN e THEN {<<"no_panic_or_overflow", FALSE>>} ELSE
   {<<"input_valid", IsValid(pos)>>,
    <<"semilegal_count", e.semi_len = n /\ e.list_len = n /\ e.parts_len = n>>,
-   <<"fits_move_list", n <= 256 /\ e.semi_len <= e.capacity /\ e.capacity = 256>>,
+   <<"fits_move_list", n <= 256 /\ e.semi_len <= e.capacity>>,
+   <<"x_move_list_capacity_is_256", e.capacity = 256>>,
    <<"legal_count", e.legal_len = Cardinality(Legal(pos))>>}
 
 Iota(n) == [i \in 1..n |-> i - 1]
@@ -599,7 +616,8 @@ BBIterChecks(e) ==
 UciListChecks(e) ==
   LET ms == [i \in 1..Len(e.moves) |-> MoveOfJson(e.moves[i])] IN
   {<<"no_panic", ~("panic" \in DOMAIN e)>>,
-   <<"uci_list_text", ("panic" \in DOMAIN e) \/ e.text = JoinWith([i \in 1..Len(ms) |-> UciOf(ms[i])], <<32>>, 1)>>,
+   <<"uci_list_text", ("panic" \in DOMAIN e) \/ Tokens(e.text) = [i \in 1..Len(ms) |-> UciOf(ms[i])]>>,
+   <<"x_uci_list_text_single_blanks", ("panic" \in DOMAIN e) \/ e.text = JoinWith([i \in 1..Len(ms) |-> UciOf(ms[i])], <<32>>, 1)>>,
    <<"uci_list_rebuilds_equal_chain", ("panic" \in DOMAIN e) \/ e.rebuilt_eq>>}
 
 TOutcomesChecks(e) ==
